@@ -55,7 +55,13 @@ Definition write_end (cx : wctx) (e : rend) (was_in_headers : bool) (c : rwc) : 
   let c1 := match encode_end (w_client cx) (w_limit cx) (w_end_len cx) e was_in_headers with
             | EndNothing => c
             | EndBody e' => emit (DEnd e') c
-            | EndTrailers e' => emit (DTrailers e') c
+            | EndTrailers e' =>
+                (* httpMergeTrailers(w.Header(), trailers): application trailers concretely; the
+                   three status keys are carried structurally by the event *)
+                let h := http_merge_trailers (hdel (s2b "Grpc-Status") (hdel (s2b "Grpc-Message") (hdel (s2b "Grpc-Status-Details-Bin")
+                           (hdel (s2b "Trailer:Grpc-Status") (hdel (s2b "Trailer:Grpc-Message") (hdel (s2b "Trailer:Grpc-Status-Details-Bin") (c_hdr c)))))))
+                           (re_trailers e') in
+                emit (DTrailers e') (mkRwc h (c_flushed c) (c_end_written c) (c_meta c) (c_err c) (c_buf c) (c_resp_comp c) (c_out c))
             end in
   mkRwc (c_hdr c1) (c_flushed c1) true (c_meta c1) (c_err c1) (c_buf c1) (c_resp_comp c1) (c_out c1).
 
@@ -263,11 +269,11 @@ Fixpoint ew_loop (fuel : nat) (cx : wctx) (data : bytes) (c : rwc) (w : ew) : rw
           | Some se =>
               match decode_env se envb with
               | None =>
-                  (report_error cx EInvalidArgument c, ew_upd w false [] 0 (ew_cur w) (ew_is_trailer w) (ew_trailer_comp w), WFail)
+                  (report_error cx EInvalidArgument c, ew_set_err (ew_upd w false [] 0 (ew_cur w) (ew_is_trailer w) (ew_trailer_comp w)), WFail)
               | Some env =>
                   if e_trailer env then
                     if w_limit cx <? e_len env then
-                      (report_error cx EResourceExhausted c, ew_upd w false [] 0 (ew_cur w) (ew_is_trailer w) (ew_trailer_comp w), WFail)
+                      (report_error cx EResourceExhausted c, ew_set_err (ew_upd w false [] 0 (ew_cur w) (ew_is_trailer w) (ew_trailer_comp w)), WFail)
                     else ew_loop f cx rest c (ew_upd w false [] (e_len env) (ECTrailer []) true (e_compressed env))
                   else
                     match w_cenv cx with
@@ -292,10 +298,10 @@ Fixpoint ew_loop (fuel : nat) (cx : wctx) (data : bytes) (c : rwc) (w : ew) : rw
                 let w3 := ew_upd w2 (ew_wenv w2) (ew_envacc w2) 0 (ew_cur w2) true (ew_trailer_comp w2) in
                 let plain := if ew_trailer_comp w2 && negb (Nat.eqb (length tb) 0) then o_decompress (w_or cx) tb else Some tb in
                 match plain with
-                | None => (c1, w3, WFail)                      (* decompress error: returned, not reported *)
+                | None => (c1, ew_set_err w3, WFail)            (* decompress error: returned, not reported *)
                 | Some p =>
                     match decode_end_from_message cx p with
-                    | None => (report_error cx EOther c1, w3, WFail)
+                    | None => (report_error cx EOther c1, ew_set_err w3, WFail)
                     | Some e =>
                         let c2 := report_end cx (with_wascomp e (ew_trailer_comp w2)) c1 in
                         (c2, ew_set_err w3, match rest with [] => WOk | _ => WFail end)
@@ -365,18 +371,19 @@ Definition tw_reset (cx : wctx) (c : rwc) (w : tw) : tw :=
 
 (** message.advanceToStage for a response message: sameCompression is always true, the
     decompressor and compressor are the same pool (the backend's response compression) *)
-Definition advance_resp (cx : wctx) (has_comp was_comp : bool) (b : bytes) : option bytes :=
-  if w_same_resp_codec cx then Some b else
-  let plain := if was_comp && has_comp && negb (Nat.eqb (length b) 0) then o_decompress (w_or cx) b else Some b in
+Definition advance_resp (cx : wctx) (has_comp was_comp : bool) (b : bytes) : bytes + ecls :=
+  if w_same_resp_codec cx then inl b else
+  let plain := if was_comp && has_comp && negb (Nat.eqb (length b) 0)
+               then match o_decompress (w_or cx) b with Some p => inl p | None => inr (decomp_class (w_or cx) b) end else inl b in
   match plain with
-  | None => None
-  | Some p =>
+  | inr e => inr e
+  | inl p =>
       match o_decode (w_or cx) p with
-      | None => None
+      | None => inr EOther
       | Some m =>
           match o_encode (w_or cx) m with
-          | None => None
-          | Some e => Some (if was_comp && has_comp then o_compress (w_or cx) e else e)
+          | None => inr EOther
+          | Some e => inl (if was_comp && has_comp then o_compress (w_or cx) e else e)
           end
       end
   end.
@@ -390,7 +397,7 @@ Definition tw_flush_message (cx : wctx) (c : rwc) (w : tw) : fres :=
   if e_trailer (tw_latest w) then
     let plain := if e_compressed (tw_latest w) && negb (Nat.eqb (length b) 0) then o_decompress (w_or cx) b else Some b in
     match plain with
-    | None => FErr EOther c w false
+    | None => FErr (decomp_class (w_or cx) b) c w false
     | Some p =>
         match decode_end_from_message cx p with
         | None => FErr EOther (report_error cx EOther c) w true
@@ -401,8 +408,8 @@ Definition tw_flush_message (cx : wctx) (c : rwc) (w : tw) : fres :=
     end
   else
     match advance_resp cx has_comp (tw_wascomp w) b with
-    | None => FErr EOther c w false
-    | Some out =>
+    | inr e => FErr e c w false
+    | inl out =>
         let write_env :=
           match w_cenv cx with
           | Some ce =>
@@ -440,16 +447,17 @@ Fixpoint tw_loop (fuel : nat) (cx : wctx) (data : bytes) (c : rwc) (w : tw) : rw
           | None => (c, w, WPanic)
           | Some se =>
               match decode_env se (firstn 5 full) with
-              | None => (report_error cx EInvalidArgument c, mkTw (tw_err w) (Some (skipn 5 full)) (tw_expect w) (tw_wenv w) (tw_latest w) (tw_wascomp w), WFail)
+              | None => (report_error cx EInvalidArgument c, mkTw true (Some (skipn 5 full)) (tw_expect w) (tw_wenv w) (tw_latest w) (tw_wascomp w), WFail)
               | Some env =>
                   if w_limit cx <? e_len env then
-                    (report_error cx EResourceExhausted c, mkTw (tw_err w) (Some (skipn 5 full)) (tw_expect w) (tw_wenv w) env (tw_wascomp w), WFail)
+                    (report_error cx EResourceExhausted c, mkTw true (Some (skipn 5 full)) (tw_expect w) (tw_wenv w) env (tw_wascomp w), WFail)
                   else tw_loop f cx rest c (mkTw (tw_err w) (Some []) (e_len env) false env (e_compressed env))
               end
           end
         else
           match tw_flush_message cx c (mkTw (tw_err w) (Some full) (tw_expect w) (tw_wenv w) (tw_latest w) (tw_wascomp w)) with
-          | FErr e c' w' reported => ((if reported then c' else report_error cx e c'), w', WFail)
+          | FErr e c' w' reported => ((if reported then c' else report_error cx e c'),
+                                     mkTw true (tw_buf w') (tw_expect w') (tw_wenv w') (tw_latest w') (tw_wascomp w'), WFail)
           | FOk c' w' =>
               if e_trailer (tw_latest w) && (match rest with [] => true | _ => false end) then (c', w', WOk)
               else tw_loop f cx rest c' (mkTw (tw_err w') (tw_buf w') 5 true (tw_latest w') (tw_wascomp w'))
@@ -470,7 +478,7 @@ Definition tw_write (cx : wctx) (data : bytes) (c : rwc) (w : tw) : rwc * tw * w
 (** transformingWriter.Close *)
 Definition tw_close (cx : wctx) (c : rwc) (w : tw) : rwc * tw :=
   let c' :=
-    if (tw_expect w =? -1) && tw_err w then c
+    if tw_err w then c
     else if tw_expect w =? -1 then
       match tw_flush_message cx c w with
       | FOk c1 _ => c1
